@@ -1648,8 +1648,8 @@ def c14_link_bursts(run):
     rng = run.rng
     key = '%032x' % rng.getrandbits(128)
     maxc = (run.extract_status.get('constants', {}) or {}).get('maxChunk') or 4 * 1024 * 1024
-    bursts = [[rng.choice([0, 1, 13, 100, 1000, 4096, 5000]) for _ in range(300)], [maxc] * 6, [100, maxc, 100, maxc, 5000, maxc]]
-    near = list(range(maxc - 200, maxc + 1, 4 if not thorough else 1))
+    bursts = [[rng.choice([0, 1, 13, 100, 1000, 4096, 5000]) for _ in range(300)], [maxc] * (6 if thorough else 3), [100, maxc, 100, maxc, 5000, maxc]]
+    near = list(range(maxc - 200, maxc + 1, 1)) if thorough else sorted({maxc - k_ for k_ in (0, 8, 16, 28, 32, 54, 64, 100)})
     for k_ in range(0, len(near), 5):
         b_ = [maxc]
         for a_ in near[k_:k_ + 5]:
